@@ -28,6 +28,13 @@ var DefaultAllow = []string{
 	"github.com/emersion/go-sasl", "internal/stringslite", "unicode", "cmp", "internal/byteorder",
 }
 
+// AllowFiles: source files of packages that are otherwise reached only through
+// intrinsics whose functions are executed from their real SSA.
+var AllowFiles = map[string]map[string]bool{"fmt": {"scan.go": true}}
+
+// AllowFuncs: pure helpers of those packages that the allowed files call.
+var AllowFuncs = map[string]bool{"fmt.parsenum": true, "fmt.tooLarge": true}
+
 // NoInit: allowed packages whose initialisers are NOT executed (they touch
 // the OS or CPU feature detection); their functions used by the encoded code
 // do not depend on package-level state, or are intrinsics.
@@ -78,6 +85,9 @@ func Load(dir string, overlay map[string][]byte) (*Program, error) {
 	p.runtimeErrorString = rt.Type("errorString").Object().Type()
 	p.InitPkgs = map[string]bool{spkgs[0].Pkg.Path(): true}
 	for _, a := range DefaultAllow {
+		p.InitPkgs[a] = true
+	}
+	for a := range AllowFiles {
 		p.InitPkgs[a] = true
 	}
 	for _, a := range NoInit {
